@@ -250,7 +250,7 @@ theorem reorg_spec {s s2 : St} {old new : Blk} (h : reorg s old new = some s2) :
       Path s.store new nc1 n ∧ n.number = min old.number new.number ∧
       Path s.store o oc2 c ∧ Path s.store n nc2 c' ∧ c.id = c'.id ∧
       (o.id = n.id → oc2 = [] ∧ nc2 = []) ∧
-      s2 = reorgApply s old.number (oc1 ++ oc2) (nc1 ++ nc2) := by
+      s2 = reorgApply s (reorgFuel s old) (oc1 ++ oc2) (nc1 ++ nc2) := by
   unfold reorg at h
   simp only at h
   split at h
@@ -657,6 +657,9 @@ theorem inv_wbws {U : Map Blk} (W : World U) {s : St} (h : Inv U s) {b p : Blk} 
                 cases hwU; rfl
             subst hcc
             subst hs2
+            have hfuel : reorgFuel (afterTd s b ptd) hb = hb.number := by
+              simp [reorgFuel, afterTd, h.hheadEq, h.headStored]
+            rw [hfuel]
             have hpid : p.id = b.parent := W.ids _ _ (h.sub _ _ (parentOf_some hpar).1)
             by_cases hNe : nc1 ++ nc2 = []
             · -- b is the common block, hence canonical; by total difficulty it is the head itself
